@@ -198,14 +198,19 @@ pub fn check(c: &Case, obs: &mut Obs) -> Result<(), String> {
             }
             10 => {
                 let mut seen = BTreeSet::new();
-                let parts: Vec<(String, usize)> = op
-                    .ch
+                // usually up to four pairs; sometimes 40 unsorted pairs over at most 28 keys
+                let many = op.c % 8 == 4 && !op.ch.is_empty();
+                let src: Vec<u16> = if many { (0..40usize).map(|q| op.ch[q % op.ch.len()].wrapping_add((q as u16).wrapping_mul(7919))).collect() } else { op.ch.iter().take(4).copied().collect() };
+                let parts: Vec<(String, usize)> = src
                     .iter()
-                    .take(4)
                     .enumerate()
-                    .map(|(q, x)| (format!("{}{}", ["k", "a", "é", ""][pick(*x, 4)], if q % 2 == 0 { op.s.as_str() } else { "" }), pick(*x >> 2, n)))
+                    .map(|(q, x)| {
+                        let tail = if many { format!("{}", x % 7) } else if q % 2 == 0 { op.s.clone() } else { String::new() };
+                        (format!("{}{}", ["k", "a", "é", ""][pick(*x, 4)], tail), pick(*x >> 2, n))
+                    })
                     .filter(|(k, _)| seen.insert(k.clone()) || op.c % 4 == 0)
                     .collect();
+                obs.label_if(many, "build_object-40-pairs-with-repeats");
                 let r = nopanic("build_object", || jsonb::build_object(parts.iter().map(|(k, q)| (k.as_str(), pool[*q].b.as_slice())), &mut buf))?;
                 edit(format!("build_object({parts:?})"), Ok(M::Obj(parts.iter().map(|(k, q)| (k.clone(), pool[*q].m.clone())).collect())), r, buf)?
             }
